@@ -36,7 +36,7 @@ class HarnessError(Exception):
 
 class Handle:
     __slots__ = ("solver", "ref", "cls", "kw", "lineage", "alive", "mode", "tainted", "origin", "parent", "added",
-                 "twin", "pins", "expansions")
+                 "twin", "pins", "expansions", "held")
 
     def __init__(self, solver, ref, cls, kw, lineage, mode, origin, parent=None):
         self.parent = parent  # index of the handle this one was branched from (ancestry for merge)
@@ -44,6 +44,7 @@ class Handle:
         self.twin = None
         self.pins = {}  # var -> value, from user-added constraints of the literal form var == const / b / Not(b)
         self.expansions = []  # constraints ConstraintExpansionMixin derives from answers (accepted in unsat cores)
+        self.held = {}  # hash -> constraint: everything the solver's public .constraints list has ever shown (tracked solvers)
         self.solver = solver
         self.ref = ref
         self.cls = cls
@@ -376,6 +377,8 @@ class Machine:
             if getattr(self, "finished_elsewhere", False):
                 self.note(idx, op, ans)
                 break
+            if not self.dry:
+                self._snapshot_held()
             if "same_as" in op:
                 self.check_same_as(idx, op, ans)
             if self.seam is not None and self.seam.op_checks:
@@ -384,6 +387,22 @@ class Machine:
         if self.seam is not None:
             self.stats["checks"] = self.seam.total
             self.stats["faults_fired"] = len(self.seam.fired)
+
+    def _snapshot_held(self):
+        """tracked solvers: remember what the public constraint list shows after every operation.  claripy's own
+        simplify() rewrites the constraints and re-asserts the rewritten forms as the tracked assertions, so a core can
+        name a form the solver held at SOME time (e.g. `c == 0` for `c + d == 0, d == 0`) even after a later simplify()
+        has replaced the list again"""
+        for h in self.handles:
+            if h.alive and h.solver is not None and (h.kw or {}).get("track"):
+                try:
+                    for c in h.solver.constraints:
+                        h.held.setdefault(c.hash(), c)
+                        if getattr(c, "op", None) == "And":
+                            for x in c.args:
+                                h.held.setdefault(x.hash(), x)
+                except Exception:  # noqa: BLE001
+                    pass
 
     DETERMINED = {"sat", "opt", "sol", "unsat-error"}
 
@@ -471,6 +490,7 @@ class Machine:
         nh.added = list(h.added)
         nh.pins = dict(h.pins)
         nh.expansions = list(h.expansions)
+        nh.held = dict(h.held)
         self.handles.append(nh)
         return ["h", len(self.handles) - 1]
 
@@ -1134,7 +1154,7 @@ class Machine:
             return ["core", 0]
         Base = self.cl.ast.Base
         Bool = self.cl.ast.Bool
-        tracked = set(h.added)
+        tracked = set(h.added) | set(h.held)
         try:
             tracked.update(self._conjunct_hashes(h.solver.constraints))
             tracked.update(c.hash() for c in h.solver.constraints)
@@ -1163,9 +1183,9 @@ class Machine:
                             tables.add(tuple(bool(f(*m)) for m in uni))
                 mine = tuple(self._concrete_truth(el, m) for m in self.ref0().universe)
                 if mine not in tables:
-                    # ... or of a constraint the solver holds now (what its own simplify() made of the added ones)
+                    # ... or of a constraint the solver holds now or has held (what its own simplify() made of the added ones)
                     try:
-                        for c in h.solver.constraints:
+                        for c in list(h.solver.constraints) + list(h.held.values()):
                             for cc in (c.args if getattr(c, "op", None) == "And" else (c,)):
                                 tables.add(tuple(self._concrete_truth(cc, m) for m in self.ref0().universe))
                     except _Skip:
